@@ -33,12 +33,14 @@ type ingestCase struct {
 	Proto       gen.Proto `json:"proto"`
 	FPType      uint      `json:"fp_type"` // 1 CityHash (default), 0 Bernstein (32 bit)
 	Distributed bool      `json:"distributed,omitempty"`
+	CtxTTL      uint16    `json:"ctx_ttl,omitempty"` // TTL_DAYS of the request context (0 = header absent)
 	Body        gen.Body  `json:"body"`
 }
 
 type rowKey struct {
 	ts   int64
 	tp   uint8
+	ttl  uint16
 	val  uint64
 	line string
 }
@@ -51,7 +53,7 @@ func valBits(v float64) uint64 {
 }
 
 func (k rowKey) String() string {
-	return fmt.Sprintf("(ts=%d type=%d value=%v line=%q)", k.ts, k.tp, math.Float64frombits(k.val), clip(k.line, 80))
+	return fmt.Sprintf("(ts=%d type=%d ttl=%d value=%v line=%q)", k.ts, k.tp, k.ttl, math.Float64frombits(k.val), clip(k.line, 80))
 }
 
 func clip(s string, n int) string {
@@ -67,6 +69,7 @@ type stream struct {
 	rows   map[rowKey]int
 	n      int
 	types  map[uint8]bool
+	ttls   map[uint16]bool
 	known  bool // label set has no JSON document (finding region)
 }
 
@@ -94,6 +97,42 @@ func diffRows(want, got map[rowKey]int) string {
 		return strings.Join(s, ", ")
 	}
 	return fmt.Sprintf("submitted but not stored: [%s]; stored but not submitted: [%s]", cut(miss), cut(extra))
+}
+
+func keysOf(m map[uint16]bool) []int {
+	var out []int
+	for k := range m {
+		out = append(out, int(k))
+	}
+	sort.Ints(out)
+	return out
+}
+
+// tagTTLShapes records in which shapes the special label met a decoder that hands one
+// label buffer to the builder several times.
+func tagTTLShapes(p gen.Proto, ttl, all []gen.FlatChunk, o *evid.Obs) {
+	if len(ttl) == 0 {
+		return
+	}
+	o.Tag("ttl-label")
+	if p == gen.Influx {
+		for i := 0; i+1 < len(all); i++ {
+			if gen.HasTTLLabel(all[i].Labels) >= 0 && gen.InfluxMergesWithNext(all, i) {
+				o.Tag("ttl-label:influx-two-fields-one-line")
+				break
+			}
+		}
+	}
+	seen := map[string]int{}
+	for _, fc := range ttl {
+		seen[gen.CanonKey(fc.Labels)]++
+	}
+	for _, n := range seen {
+		if n > 1 {
+			o.Tag("ttl-label:repeated-stream")
+			break
+		}
+	}
 }
 
 func withRows(streams map[string]*stream) int {
@@ -133,12 +172,38 @@ func predIngest(c ingestCase, o *evid.Obs) error {
 	streams := map[string]*stream{}
 	var order []string
 	points, bytesz, withEntries, several, empty := 0, 0, 0, false, false
+	var ttlChunks []gen.FlatChunk
+	ttlTags := map[string]bool{}
+	rwCarry := 0
 	for _, fc := range chunks {
-		exp := gen.ExpectedLabels(p, fc.Labels)
+		exp, ttl := gen.ExpectedStored(p, fc.Labels, c.CtxTTL)
+		if i := gen.HasTTLLabel(fc.Labels); i >= 0 {
+			switch {
+			case i == 0:
+				ttlTags["ttl-label:first"] = true
+			case i == len(fc.Labels)-1:
+				ttlTags["ttl-label:last"] = true
+			default:
+				ttlTags["ttl-label:middle"] = true
+			}
+			if gen.TTLOf(string(fc.Labels[i].Value)) == 0 {
+				ttlTags["ttl-label:invalid-value"] = true
+			}
+			if c.CtxTTL != 0 {
+				ttlTags["ttl-label+ctx-ttl"] = true
+			}
+			// metricsProtobuf.go:21: the point counter runs across series; a series that
+			// crosses a multiple of 1000 reaches the builder in several calls with one buffer
+			if n := rwCarry + len(fc.Entries); p == gen.PromRW && (n/1000 >= 2 || n/1000 == 1 && n%1000 > 0) {
+				ttlTags["ttl-label:series-flushed-in-pieces"] = true
+			}
+			ttlChunks = append(ttlChunks, fc)
+		}
+		rwCarry = (rwCarry + len(fc.Entries)) % 1000
 		k := gen.CanonKey(exp)
 		s := streams[k]
 		if s == nil {
-			s = &stream{key: k, labels: exp, rows: map[rowKey]int{}, types: map[uint8]bool{}, known: !gen.DocRepresentable(exp)}
+			s = &stream{key: k, labels: exp, rows: map[rowKey]int{}, types: map[uint8]bool{}, ttls: map[uint16]bool{}, known: !gen.DocRepresentable(exp)}
 			streams[k] = s
 			order = append(order, k)
 		} else {
@@ -155,7 +220,8 @@ func predIngest(c ingestCase, o *evid.Obs) error {
 				return nil
 			}
 			line := gen.ExpectedLine(p, e)
-			s.rows[rowKey{e.Ts, e.Kind, valBits(e.Val), line}]++
+			s.rows[rowKey{e.Ts, e.Kind, ttl, valBits(e.Val), line}]++
+			s.ttls[ttl] = true
 			s.n++
 			s.types[e.Kind] = true
 			points++
@@ -164,7 +230,16 @@ func predIngest(c ingestCase, o *evid.Obs) error {
 	}
 
 	// ---- the real parser
-	res := ParseBody(p, c.Body, c.Distributed)
+	res := ParseBodyTTL(p, c.Body, c.Distributed, c.CtxTTL)
+	if c.CtxTTL != 0 {
+		o.Tag("ctx-ttl")
+	}
+	tagTTLShapes(p, ttlChunks, chunks, o)
+	for _, t := range []string{"ttl-label:first", "ttl-label:middle", "ttl-label:last", "ttl-label:invalid-value", "ttl-label+ctx-ttl", "ttl-label:series-flushed-in-pieces"} {
+		if ttlTags[t] {
+			o.Tag(t)
+		}
+	}
 
 	o.Tag("proto="+string(p), fmt.Sprintf("fp-type=%d", c.FPType))
 	if c.Distributed {
@@ -210,7 +285,7 @@ func predIngest(c ingestCase, o *evid.Obs) error {
 			got[r.FP] = m
 			fpOrder = append(fpOrder, r.FP)
 		}
-		m[rowKey{r.Ts, r.Type, valBits(r.Val), r.Line}]++
+		m[rowKey{r.Ts, r.Type, r.TTL, valBits(r.Val), r.Line}]++
 	}
 	fpKey := map[uint64]string{}
 	keyFP := map[string]uint64{}
@@ -250,6 +325,9 @@ func predIngest(c ingestCase, o *evid.Obs) error {
 			return fmt.Errorf("%s: label set %s has two fingerprints: %d and %d", p, labelsStr(streams[k].labels), prev, sr.FP)
 		}
 		fpKey[sr.FP], keyFP[k] = k, sr.FP
+		if !streams[k].ttls[sr.TTL] {
+			return fmt.Errorf("%s: series row of %s carries TTL %d, its entries were submitted with TTL %v", p, labelsStr(ls), sr.TTL, keysOf(streams[k].ttls))
+		}
 		if _, ok := got[sr.FP]; !ok {
 			return fmt.Errorf("%s: series row for %s (fingerprint %d) but no sample row carries that fingerprint", p, labelsStr(ls), sr.FP)
 		}
@@ -382,6 +460,17 @@ func genIngest(p gen.Proto) func(rt *rapid.T) ingestCase {
 		}
 		c.Distributed = rapid.IntRange(0, 7).Draw(rt, "distributed") == 0
 		c.Body = gen.BodyOf(rt, p, "")
+		hasTTL := false
+		for _, s := range c.Body.Sets {
+			if gen.HasTTLLabel(s) >= 0 {
+				hasTTL = true
+			}
+		}
+		// a TTL supplied with the request (X-Ttl-Days header -> TTL_DAYS): a third of the
+		// bodies with the special label, a tenth of the others
+		if hasTTL && rapid.IntRange(0, 2).Draw(rt, "ctx-ttl") == 0 || !hasTTL && rapid.IntRange(0, 9).Draw(rt, "ctx-ttl") == 0 {
+			c.CtxTTL = uint16(rapid.SampledFrom([]int{1, 14, 90}).Draw(rt, "ctx-ttl-days"))
+		}
 		return c
 	}
 }
